@@ -30,8 +30,9 @@ match_cdata = re.compile(
 match_declaration = re.compile(
     r'^<!(?P<text>[^>]+)>$', re.DOTALL)
 match_processing_instruction = re.compile(
-    # (the name is the whole target: up to white space or the closing ``?>``)
-    r'^<\?(?P<name>\w[^\s?]*)(?P<text>.*?)\?>', re.DOTALL)
+    # (the name is the whole target: up to white space or the closing ``?>``;
+    # only what ends a name for the tokenizer is white space here)
+    r'^<\?(?P<name>\w[^ \n\t\r?]*)(?P<text>.*?)\?>', re.DOTALL)
 match_xml_declaration = re.compile(r'^<\?xml(?=[ /])', re.DOTALL)
 
 log = logging.getLogger('chameleon.parser')
